@@ -2027,7 +2027,10 @@ func (d *DFA) SearchReverseLimited(cache *DFACache, haystack []byte, start, end,
 		lastMatch = lowerBound
 	}
 
-	if lowerBound > start && lastMatch < 0 {
+	// The scan stopped at the guard while the automaton was still alive: a longer
+	// match may begin before minStart, so a start seen so far is not known to be
+	// the leftmost one. Only the caller's fallback can decide.
+	if lowerBound > start {
 		return SearchReverseLimitedQuadratic
 	}
 
